@@ -27,6 +27,7 @@ import (
 	"verifharness/world"
 
 	ccpb "github.com/google/go-tdx-guest/proto/checkconfig"
+	"github.com/google/go-tdx-guest/verify"
 	"google.golang.org/protobuf/encoding/prototext"
 	"google.golang.org/protobuf/proto"
 )
@@ -69,6 +70,11 @@ func startPCS(dir string, resp map[string]world.Resp) (*pcsNet, error) {
 		n.hits = append(n.hits, u)
 		n.mu.Unlock()
 		rp, ok := resp[u]
+		if ok && rp.Err == "slow" { // an endpoint that keeps the client waiting (longer than its timeout) and then fails
+			time.Sleep(2500 * time.Millisecond)
+			http.Error(rw, "gateway timeout", 504)
+			return
+		}
 		if !ok || rp.Err != "" {
 			http.Error(rw, "not found", 404)
 			return
@@ -222,12 +228,29 @@ func c19(x *mon.Ctx) {
 	mkNet("root-crl-down", w, func(u string) bool { return strings.HasSuffix(u, ".der") })
 	mkNet("tcbinfo-down", w, func(u string) bool { return strings.Contains(u, "/tcb?") })
 	mkNet("qeidentity-down", w, func(u string) bool { return strings.Contains(u, "/qe/identity") })
+	for name, match := range map[string]func(u string) bool{
+		"pck-crl-slow":  func(u string) bool { return strings.Contains(u, "pckcrl") },
+		"root-crl-slow": func(u string) bool { return strings.HasSuffix(u, ".der") },
+		"tcbinfo-slow":  func(u string) bool { return strings.Contains(u, "/tcb?") },
+	} {
+		resp := w.Responses()
+		for u := range resp {
+			if match(u) {
+				resp[u] = world.Resp{Err: "slow"}
+			}
+		}
+		if n, err := startPCS(dir, resp); err == nil {
+			nets[name] = n
+		} else {
+			x.Broken("cannot start the in-process PCS: " + err.Error())
+		}
+	}
 	defer func() {
 		for _, n := range nets {
 			n.stop()
 		}
 	}()
-	if len(nets) != 7 {
+	if len(nets) != 10 {
 		return
 	}
 	// a proxy address nobody listens on
@@ -551,6 +574,9 @@ func c19(x *mon.Ctx) {
 	add("network", "collateral/crl-endpoints-down-but-unused", "crl-down", 0, -1, true, netArgs("-get_collateral=true")...)
 	add("network", "collateral/tcbinfo-endpoint-down", "tcbinfo-down", 3, -1, false, netArgs("-get_collateral=true")...)
 	add("network", "collateral/qeidentity-endpoint-down", "qeidentity-down", 3, -1, false, netArgs("-get_collateral=true")...)
+	add("network", "collateral+crl/pck-crl-endpoint-slow-then-fails", "pck-crl-slow", 3, -1, false, netArgs("-get_collateral=true", "-check_crl=true")...)
+	add("network", "collateral+crl/root-crl-endpoint-slow-then-fails", "root-crl-slow", 3, -1, false, netArgs("-get_collateral=true", "-check_crl=true")...)
+	add("network", "collateral/tcbinfo-endpoint-slow-then-fails", "tcbinfo-slow", 3, -1, false, netArgs("-get_collateral=true")...)
 	add("network", "no-collateral/proxy-dead", "dead", 0, -1, true, netArgs()...)
 	add("network", "crl-without-collateral", "honest", 1, -1, false, netArgs("-check_crl=true")...)
 	add("network", "crl-without-collateral-explicit", "honest", 1, -1, false, netArgs("-check_crl=true", "-get_collateral=false")...)
@@ -657,12 +683,30 @@ func c19(x *mon.Ctx) {
 				x.Violation("typed-fetch-error", c.Param, fmt.Sprintf("the %s endpoint is unreachable, but errors.As finds neither *trust.AttestationRecreationErr nor verify.CRLUnavailableErr as appropriate in the returned error %q (accepted=%v)", name, out.Err, out.Accepted), "verify", c)
 			}
 			x.Note("typed-fetch-error", c.Param, out.Accepted, out.Panic != "", okk)
+			// the same through an options value that verified the honest world before (once with collateral only, once with
+			// revocation too): a long-lived verifier meets the outage after successful verifications
+			for _, firstLevel := range []int{world.LColl, world.LCrl} {
+				sh := &verify.Options{}
+				first := mon.RunVerifyShared(w.Case(firstLevel, "typed-fetch-error", "warm-up"), sh)
+				out2 := mon.RunVerifyShared(c, sh)
+				ok2 := out2.AsCRLUnavailable
+				if name == "tcbinfo" || name == "qeidentity" {
+					ok2 = out2.AsRecreation
+				}
+				param := fmt.Sprintf("%s/after-success-at-level-%d", c.Param, firstLevel)
+				if !first.Accepted {
+					x.Broken("typed-fetch-error warm-up rejected: " + first.Err)
+				} else if out2.Accepted || out2.Panic != "" || !ok2 {
+					x.Violation("typed-fetch-error", param, fmt.Sprintf("after a successful verification through the same options value the %s endpoint became unreachable, but the returned error %q (accepted=%v) is not the typed fetch error", name, out2.Err, out2.Accepted), "verify", c)
+				}
+				x.Note("typed-fetch-error", param, out2.Accepted, out2.Panic != "", ok2)
+			}
 		}
 	}
 	x.Require("baseline", 1, 3, 4)
 	x.Require("network", 5, 12, 20)
 	x.Require("policy-field/mr_td", 4, 10, 16)
-	x.Require("typed-fetch-error", 0, 8, 8)
+	x.Require("typed-fetch-error", 0, 24, 24)
 	x.Require("config-shape", 12, 6, 20)
 }
 
